@@ -32,6 +32,9 @@ fn key_of(sc: &Scenario, v: &Violation) -> String {
 pub fn report_to_result(sc: &Scenario, rep: RunReport, restarted_only: bool) -> OneResult {
     let mut r = OneResult::default();
     r.xdigest = Some(rep.results_digest);
+    if rep.stats.switches > 1 {
+        r.interleaving = Some(rep.switch_digest);
+    }
     if let Some(_w) = &rep.skipped {
         r.skipped = true;
         r.add("runs_skipped_unbuildable", 1);
